@@ -40,8 +40,8 @@ Qed.
 (** integer expressions: 64-bit literals under the integer functors *)
 Inductive int_expr : expr -> Prop :=
 | IE_num z : int64 z -> int_expr (ENum (NInt z))
-| IE_un f x : In f ["-"; "abs"; "+"; "sign"] -> int_expr x -> int_expr (ECmp f [x])
-| IE_bin f x y : In f ["+"; "-"; "*"; "//"; "rem"; "mod"; "div"] -> int_expr x -> int_expr y -> int_expr (ECmp f [x; y]).
+| IE_un f x : In f ["-"; "abs"; "+"; "sign"; "\"] -> int_expr x -> int_expr (ECmp f [x])
+| IE_bin f x y : In f ["+"; "-"; "*"; "//"; "rem"; "mod"; "div"; "/\"; "\/"; "xor"; "min"; "max"] -> int_expr x -> int_expr y -> int_expr (ECmp f [x; y]).
 
 (** the value of an integer expression, when there is one, is a 64-bit integer; and evaluation is normal *)
 Definition int_result (r : res num everr) : Prop :=
@@ -64,13 +64,14 @@ Proof.
   induction 1 as [z Hz | f x Hf Hx IH | f x y Hf Hx IHx Hy IHy].
   - exact Hz.
   - cbn [eval]. destruct (eval x) as [[vx|fx]|ex| | | |] eqn:Ex; cbn in IH; try contradiction;
-      cbn in Hf; destruct Hf as [<-|[<-|[<-|[<-|[]]]]]; cbn; try exact I.
+      cbn in Hf; destruct Hf as [<-|[<-|[<-|[<-|[<-|[]]]]]]; cbn; try exact I.
     + apply lift_int; [exact (exact_normal _ _ (negI_exact vx IH)) | intros z; apply (exact_range _ _ _ (negI_exact vx IH))].
     + apply lift_int; [exact (exact_normal _ _ (absI_exact vx IH)) | intros z; apply (exact_range _ _ _ (absI_exact vx IH))].
     + exact IH.
     + unfold go_sign. cbn. rewrite signI_exact. clear. destruct vx; cbn; u64; lia.
+    + exact (proj2 (not64_exact vx IH)).
   - cbn [eval]. destruct (eval x) as [[vx|fx]|ex| | | |] eqn:Ex; cbn in IHx; try contradiction;
-      cbn in Hf; destruct Hf as [<-|[<-|[<-|[<-|[<-|[<-|[<-|[]]]]]]]]; cbn; try exact I;
+      cbn in Hf; destruct Hf as [<-|[<-|[<-|[<-|[<-|[<-|[<-|[<-|[<-|[<-|[<-|[<-|[]]]]]]]]]]]]]; cbn; try exact I;
       destruct (eval y) as [[vy|fy]|ey| | | |] eqn:Ey; cbn in IHy; try contradiction; cbn; try exact I.
     + apply lift_int; [exact (exact_normal _ _ (addI_exact vx vy IHx IHy)) | intros z; apply (exact_range _ _ _ (addI_exact vx vy IHx IHy))].
     + apply lift_int; [exact (exact_normal _ _ (subI_exact vx vy IHx IHy)) | intros z; apply (exact_range _ _ _ (subI_exact vx vy IHx IHy))].
@@ -79,4 +80,9 @@ Proof.
     + apply lift_int; [exact (div_normal _ _ _ (remI_exact vx vy IHx IHy)) | intros z; apply (div_range _ _ _ _ (remI_exact vx vy IHx IHy))].
     + apply lift_int; [exact (div_normal _ _ _ (modI_exact vx vy IHx IHy)) | intros z; apply (div_range _ _ _ _ (modI_exact vx vy IHx IHy))].
     + apply lift_int; [exact (div_normal _ _ _ (intFloorDivI_exact vx vy IHx IHy)) | intros z; apply (div_range _ _ _ _ (intFloorDivI_exact vx vy IHx IHy))].
+    + exact (and64_range vx vy IHx IHy).
+    + exact (or64_range vx vy IHx IHy).
+    + exact (xor64_range vx vy IHx IHy).
+    + destruct (Z.gtb vx vy); cbn; assumption.
+    + destruct (Z.ltb vx vy); cbn; assumption.
 Qed.
